@@ -17,6 +17,7 @@ from ..lang.printer import program_str
 from ..ref.engine import Engine, Unsupported, CapExceeded, DomainError, AP
 from ..ref import laws
 from . import common as K
+from .. import diagnose
 from .c01 import compare_closed_form
 
 ID = "C17"
@@ -199,7 +200,9 @@ def run_case(case, tier):
                 for v in bad:
                     v["settings"] = label
                     v["goal"] = P.monom_str(g)
-                    v["key"] = None
+                    # every setting runs the same condition abstraction: a value that is wrong because the abstracted event is
+                    # decorrelated from its own variables is the known finding, whatever the setting
+                    v["key"] = diagnose.classify_moment_violation(case, v, recs, program)
                     v["detail"] = f"[{label}] E({P.monom_str(g)}): " + v["detail"]
                     res["violations"].append(v)
         finally:
